@@ -123,6 +123,8 @@ def key_of(k):
     k = absint.deref(k)
     if isinstance(k, (str, int, bool)):
         return ("v", k)
+    if isinstance(k, float):
+        return ("v", k) if k == k else ("nan", id(k))       # (NaN equals nothing, itself included)
     if isinstance(k, list):
         return ("l",) + tuple(key_of(x) for x in k)
     if isinstance(k, Enum):
@@ -418,6 +420,7 @@ class Machine:
         raw = [self._operand(env, x) for x in tt["args"]]
         a = [absint.deref(x) for x in raw]
         if self.intercept is not None:
+            self.cur_raw = raw               # (a client model that writes through a `&mut` argument needs the reference itself)
             r = self.intercept(self, c, a, tt, g)
             if r is not NOT:
                 return r
@@ -431,6 +434,14 @@ class Machine:
             return r
         if c in ("std::mem::take", "std::mem::replace", "std::mem::swap", "core::mem::take", "core::mem::replace", "core::mem::swap"):
             return self._mem_model(c.rsplit("::", 1)[-1], raw, a)
+        if c.endswith("String::pop"):
+            tgt, cur = raw[0], a[0]
+            if isinstance(tgt, absint.Ptr) and isinstance(cur, str):
+                if not cur:
+                    return none()
+                tgt.set(cur[:-1])
+                return some(ord(cur[-1]))
+            return UNKNOWN
         if c.endswith("String::clear") or c.endswith("String::truncate"):
             tgt, cur = raw[0], a[0]
             if isinstance(tgt, absint.Ptr) and isinstance(cur, str):
@@ -635,7 +646,10 @@ class Machine:
                 if isinstance(p, str):
                     parts.append(p)
                 else:
-                    parts.append(args[p[1]] if p[1] is not None and p[1] < len(args) else UNKNOWN)
+                    arg_ = args[p[1]] if p[1] is not None and p[1] < len(args) else UNKNOWN
+                    if (len(p) > 3 and p[3] or p[2] is not None) and isinstance(arg_, FmtArg) and isinstance(arg_.value, float):
+                        arg_ = FmtArg(arg_.kind, Tok_float(arg_.value), arg_.ty)       # width / precision / flags given: text not modelled
+                    parts.append(arg_)
             return FmtArguments(parts)
         if end in ("from_str", "from_str_nonconst", "new_const") and "fmt::Arguments" in c:
             v = a[0] if a else None
@@ -683,8 +697,12 @@ class Machine:
         """text of `value` as its Display / Debug impl in the crate prints it: Text with holes for opaque parts"""
         if isinstance(value, Text):
             return value
-        if value is UNKNOWN or not isinstance(value, (Enum, list, str, int, bool)):
+        if value is UNKNOWN or not isinstance(value, (Enum, list, str, int, bool, float)):
             return Text([Hole(value, ty, kind)]).flat()            # an opaque token prints as itself
+        if isinstance(value, float):
+            from . import rustfloat
+            txt_ = rustfloat.fmt(value, kind, 64 if "f64" in (ty or "") else 32)
+            return txt_ if txt_ is not None else Text([Hole(value, ty, kind)]).flat()
         if isinstance(value, (str,)):
             return value if kind == "display" else repr(value)
         if isinstance(value, bool):
@@ -745,6 +763,51 @@ class Machine:
 
         def m(*names):
             return any(c == n or c.endswith(n) for n in names)
+        # ---- a real number given as a value (binary32: the crate's only instantiation of its real type)
+        if isinstance(a0, float) and len(a) == 1 and end in FLOAT_UNARY and ("f32" in c or "Float" in c or "f64" in c or "num_traits" in c or "ToPrimitive" in c or "Real" in c):
+            import math as _m
+            from .rustfloat import f32 as _f32
+            x = a0
+            if end in ("floor", "ceil", "round", "trunc", "abs", "fract", "neg", "sqrt", "signum"):
+                if x != x or x in (float("inf"), float("-inf")):
+                    return x if end != "fract" else float("nan")
+                return _f32({"floor": _m.floor, "ceil": _m.ceil, "trunc": _m.trunc, "abs": abs, "neg": lambda v_: -v_,
+                             "round": lambda v_: _m.copysign(_m.floor(abs(v_) + 0.5), v_), "fract": lambda v_: v_ - _m.trunc(v_),
+                             "sqrt": lambda v_: _m.sqrt(v_) if v_ >= 0 else float("nan"),
+                             "signum": lambda v_: _m.copysign(1.0, v_)}[end](x)) if not (end in ("floor", "ceil", "trunc", "round") and x == 0) else x
+            if end == "is_nan":
+                return x != x
+            if end == "is_infinite":
+                return x in (float("inf"), float("-inf"))
+            if end == "is_finite":
+                return x == x and x not in (float("inf"), float("-inf"))
+            if end == "is_sign_negative":
+                return _m.copysign(1.0, x) < 0
+            if end == "is_sign_positive":
+                return _m.copysign(1.0, x) > 0
+            if end in ("to_i32", "to_i64", "to_u32", "to_usize", "to_i16", "to_u8", "to_u64", "to_isize"):
+                lo_, hi_ = PRIM_INTS[end[3:]]
+                if x != x or x in (float("inf"), float("-inf")):
+                    return none()
+                t_ = _m.trunc(x)
+                return some(int(t_)) if lo_ <= t_ <= hi_ else none()
+            if end in ("to_f32", "to_f64"):
+                return some(x)
+        if end == "from" and "NumCast" in c and len(a) == 1 and isinstance(a0, (int, float)) and not isinstance(a0, bool):
+            gens_ = [str(x) for x in (self.subst_generics(((tt or {}).get("fn") or {}).get("generics")) or []) if not str(x).startswith("'")]
+            dst_ = gens_[0] if gens_ else ""
+            from .rustfloat import f32 as _f32
+            if dst_ in PRIM_INTS:
+                lo_, hi_ = PRIM_INTS[dst_]
+                if isinstance(a0, float):
+                    import math as _m
+                    if a0 != a0 or a0 in (float("inf"), float("-inf")) or not lo_ <= _m.trunc(a0) <= hi_:
+                        return none()
+                    return some(int(_m.trunc(a0)))
+                return some(a0) if lo_ <= a0 <= hi_ else none()
+            if dst_ == "f64":
+                return some(float(a0))
+            return some(_f32(a0))             # f32, or the crate's real-number parameter (instantiated with f32 only)
         # ---- pass-through (std wrappers only: an impl written in the crate, e.g. Deref for Located<T>, is followed instead)
         lf = self.fb.by_path(c, self.crate)
         if lf is not None and isinstance(a0, (Enum, list)) and (end in ("into", "from") or (not lf.derived and end in (
@@ -1937,6 +2000,15 @@ class Bytes:
         self.bs = bs
 
 
+class Tok_float:
+    """a real number printed with a width / precision / flag: its text is not modelled"""
+    def __init__(self, v):
+        self.v = v
+
+    def __repr__(self):
+        return "<real %r formatted with a spec>" % self.v
+
+
 class FmtArg:
     def __init__(self, kind, value, ty):
         self.kind, self.value, self.ty = kind, value, ty
@@ -2023,6 +2095,9 @@ OPTION_METHODS = {"transpose", "map", "and_then", "ok_or", "ok_or_else", "unwrap
                   "is_none", "or", "or_else", "filter", "unwrap", "expect", "take", "replace", "unwrap_or_default"}
 RESULT_METHODS = {"transpose", "map", "map_err", "and_then", "or_else", "ok", "err", "is_ok", "is_err", "unwrap_or", "unwrap_or_else", "unwrap",
                   "expect", "unwrap_or_default"}
+FLOAT_UNARY = ("floor", "ceil", "round", "trunc", "abs", "fract", "neg", "sqrt", "signum", "is_nan", "is_infinite", "is_finite",
+               "is_sign_negative", "is_sign_positive", "to_i32", "to_i64", "to_u32", "to_usize", "to_i16", "to_u8", "to_u64", "to_isize",
+               "to_f32", "to_f64")
 PRIM_INTS = {"i8": (-2 ** 7, 2 ** 7 - 1), "i16": (-2 ** 15, 2 ** 15 - 1), "i32": (-2 ** 31, 2 ** 31 - 1), "i64": (-2 ** 63, 2 ** 63 - 1),
              "isize": (-2 ** 63, 2 ** 63 - 1), "i128": (-2 ** 127, 2 ** 127 - 1), "u8": (0, 2 ** 8 - 1), "u16": (0, 2 ** 16 - 1), "u32": (0, 2 ** 32 - 1),
              "u64": (0, 2 ** 64 - 1), "usize": (0, 2 ** 64 - 1), "u128": (0, 2 ** 128 - 1)}
